@@ -87,6 +87,9 @@ def validate(traces):
 
 
 def execute(b, pieces, path):
+    # a generated script stops at the call the model expects to fail: the rest of the body stays available
+    if sum(pieces) < len(b.data):
+        pieces = list(pieces) + [len(b.data) - sum(pieces)]
     if path == 'class':
         return X.run_class(b.dec, b.data, pieces)
     ev, content, delivered = X.run_stream(b.dec, b.data, pieces, path)
